@@ -451,5 +451,223 @@ theorem quadOk_sound (c : ICert) (deg kk : Nat) (h : c.quadOk deg kk = true) (k 
   have := le_of_mul_le_mul_left this (by positivity)
   linarith
 
+/-! ### what the remaining Boolean checkers mean (review2 E, C01-3)
+
+ `ratBasis` is built entry by entry from `sc (ent (c.frow r) i) c.ef`, `sc (ent (c.pcol r l) j) c.ep`,
+ `sc (ent c.w j) c.ew` (`ent2_f`, `ent3_p`, `ent_w`); the statements below are about these entries
+ (`ent` = entry with default `0`, so "for every index" includes the out-of-range ones). -/
+
+theorem all_take_getD {l : List Int} {n : Nat} {P : Int → Bool} (h : (l.take n).all P = true)
+    (i : Nat) (hi : i < n) (hl : i < l.length) : P (l.getD i 0) = true := by
+  rw [List.all_eq_true] at h
+  apply h
+  have : (l.take n)[i]? = some (l.getD i 0) := by
+    rw [List.getElem?_take_of_lt hi, List.getD_eq_getElem?_getD, List.getElem?_eq_getElem hl]; rfl
+  exact List.mem_of_getElem? this
+
+theorem all_drop_ent {l : List Int} {n : Nat} (h : (l.drop n).all (fun v => decide (v = 0)) = true)
+    (i : Nat) (hi : n ≤ i) : ent l i = 0 := by
+  unfold ent
+  by_cases hl : i < l.length
+  · rw [List.all_eq_true] at h
+    have hm : l[i] ∈ l.drop n := by
+      rw [List.mem_drop_iff_getElem]
+      exact ⟨i - n, by omega, by congr 1; omega⟩
+    have := h _ hm
+    rw [List.getD_eq_getElem?_getD, List.getElem?_eq_getElem hl]
+    simpa using this
+  · rw [List.getD_eq_getElem?_getD, List.getElem?_eq_none (by omega)]; rfl
+
+theorem all_zero_ent {l : List Int} (h : l.all (fun v => decide (v = 0)) = true) (i : Nat) :
+    ent l i = 0 := all_drop_ent (n := 0) (by simpa using h) i (Nat.zero_le _)
+
+/-- `constOk`: on the genuine nodes `i < N₀`, `j < J₀` the factors of the `(0,0)` basis function are
+ constant (`f[i][0] = f[0][0]`, `p[0][j][0] = p[0][0][0]`), hence `f[i][0]·p[0][j][0] = b₀` there -/
+theorem constOk_sound (c : ICert) (N0 J0 : Nat) (h : c.constOk N0 J0 = true) :
+    (∀ i, i < N0 → i < (c.frow 0).length → ent (c.frow 0) i = ent (c.frow 0) 0) ∧
+    (∀ j, j < J0 → j < (c.pcol 0 0).length → ent (c.pcol 0 0) j = ent (c.pcol 0 0) 0) ∧
+    (∀ i j, i < N0 → i < (c.frow 0).length → j < J0 → j < (c.pcol 0 0).length →
+      sc (ent (c.frow 0) i) c.ef * sc (ent (c.pcol 0 0) j) c.ep = c.b0q) := by
+  simp only [constOk, Bool.and_eq_true] at h
+  have h1 : ∀ i, i < N0 → i < (c.frow 0).length → ent (c.frow 0) i = ent (c.frow 0) 0 := by
+    intro i hi hl
+    simpa [ent] using all_take_getD h.1 i hi hl
+  have h2 : ∀ j, j < J0 → j < (c.pcol 0 0).length → ent (c.pcol 0 0) j = ent (c.pcol 0 0) 0 := by
+    intro j hj hl
+    simpa [ent] using all_take_getD h.2 j hj hl
+  refine ⟨h1, h2, ?_⟩
+  intro i j hi hil hj hjl
+  rw [h1 i hi hil, h2 j hj hjl, sc_mul]
+  rfl
+
+/-- `nonnegOk`: every quadrature weight of the basis and of the latitude rule is `≥ 0` -/
+theorem nonnegOk_sound (c : ICert) (h : c.nonnegOk = true) :
+    (∀ j, 0 ≤ sc (ent c.w j) c.ew) ∧ (∀ j, 0 ≤ sc (ent c.wl j) c.ewl) := by
+  simp only [nonnegOk, Bool.and_eq_true, List.all_eq_true, decide_eq_true_eq] at h
+  have key : ∀ (l : List Int), (∀ v ∈ l, 0 ≤ v) → ∀ j, 0 ≤ ent l j := by
+    intro l hl j
+    unfold ent
+    rw [List.getD_eq_getElem?_getD]
+    cases hj : l[j]? with
+    | none => simp
+    | some v => exact hl v (List.mem_of_getElem? hj)
+  exact ⟨fun j => sc_nonneg _ (key _ h.1 j), fun j => sc_nonneg _ (key _ h.2 j)⟩
+
+/-- `zerosOk`: the Legendre tables vanish exactly below the diagonal, `p[r][j][l] = 0` for
+ `l < |m(r)|`, at every node -/
+theorem zerosOk_sound (c : ICert) (mabs : List Nat) (h : c.zerosOk mabs = true)
+    (r l j : Nat) (hr : r < c.R) (hl : l < c.L) (hm : l < mabs.getD r 0) :
+    ent (c.pcol r l) j = 0 ∧ sc (ent (c.pcol r l) j) c.ep = 0 := by
+  simp only [zerosOk, List.all_eq_true, List.mem_range] at h
+  have h0 := all_zero_ent (List.all_eq_true.2 (h r hr l (by omega))) j
+  exact ⟨h0, by rw [h0]; simp [sc]⟩
+
+/-- `zerosOk` on the rational basis of the certificate -/
+theorem zerosOk_ratBasis (c : ICert) (mabs : List Nat) (h : c.zerosOk mabs = true)
+    (r j l : Nat) (hr : r < c.R) (hj : j < c.J) (hl : l < c.L) (hm : l < mabs.getD r 0) :
+    ent3 c.ratBasis.p r j l = 0 := by
+  rw [ent3_p c r j l hr hj hl]
+  exact (zerosOk_sound c mabs h r l j hr hl hm).2
+
+/-- `paddingOk`: all padding of a `FastSphericalHarmonics` basis is exactly zero: modal rows `≥ 2M`
+ and row `1` of `f`, nodes `≥ N₀` of every row of `f`, Legendre tables `≥ M`, wavenumbers `≥ L₀`,
+ nodes `≥ J₀`, and the weights of the nodes `≥ J₀` -/
+theorem paddingOk_sound (c : ICert) (M L0 N0 J0 : Nat) (h : c.paddingOk M L0 N0 J0 = true) :
+    (∀ r i, 2 * M ≤ r → ent (c.frow r) i = 0) ∧
+    (∀ i, ent (c.frow 1) i = 0) ∧
+    (∀ r i, N0 ≤ i → ent (c.frow r) i = 0) ∧
+    (∀ r l j, M ≤ r / c.pdiv → ent (c.pcol r l) j = 0) ∧
+    (∀ r l j, L0 ≤ l → ent (c.pcol r l) j = 0) ∧
+    (∀ r l j, J0 ≤ j → ent (c.pcol r l) j = 0) ∧
+    (∀ j, J0 ≤ j → ent c.w j = 0) := by
+  simp only [paddingOk, Bool.and_eq_true] at h
+  obtain ⟨⟨⟨⟨⟨⟨h1, h2⟩, h3⟩, h4⟩, h5⟩, h6⟩, h7⟩ := h
+  -- membership of `getD` with default `[]`
+  have mem_or {α : Type} (L : List (List α)) (k : Nat) : L.getD k [] = [] ∨ L.getD k [] ∈ L := by
+    rw [List.getD_eq_getElem?_getD]
+    cases hk : L[k]? with
+    | none => left; rfl
+    | some v => right; exact List.mem_of_getElem? hk
+  have mem_drop {α : Type} (L : List (List α)) (n k : Nat) (hk : n ≤ k) :
+      L.getD k [] = [] ∨ L.getD k [] ∈ L.drop n := by
+    rw [List.getD_eq_getElem?_getD]
+    cases hkk : L[k]? with
+    | none => left; rfl
+    | some v =>
+      right
+      obtain ⟨hlt, rfl⟩ := List.getElem?_eq_some_iff.1 hkk
+      rw [List.mem_drop_iff_getElem]
+      exact ⟨k - n, by omega, by simp only [Option.getD_some]; congr 1; omega⟩
+  refine ⟨?_, ?_, ?_, ?_, ?_, ?_, ?_⟩
+  · intro r i hr
+    unfold frow
+    rcases mem_drop c.ft (2 * M) r hr with h0 | hm
+    · rw [h0]; simp
+    · exact all_zero_ent (List.all_eq_true.1 h1 _ hm) i
+  · intro i; exact all_zero_ent h2 i
+  · intro r i hi
+    unfold frow
+    rcases mem_or c.ft r with h0 | hm
+    · rw [h0]; simp
+    · exact all_drop_ent (List.all_eq_true.1 h3 _ hm) i hi
+  · intro r l j hr
+    unfold pcol
+    rcases mem_drop c.pt M (r / c.pdiv) hr with h0 | hm
+    · rw [h0]; simp
+    · have hpm := List.all_eq_true.1 h4 _ hm
+      rcases mem_or (c.pt.getD (r / c.pdiv) []) l with h0 | hm2
+      · rw [h0]; simp
+      · exact all_zero_ent (List.all_eq_true.1 hpm _ hm2) j
+  · intro r l j hl
+    unfold pcol
+    rcases mem_or c.pt (r / c.pdiv) with h0 | hm
+    · rw [h0]; simp
+    · have hpm := List.all_eq_true.1 h5 _ hm
+      rcases mem_drop (c.pt.getD (r / c.pdiv) []) L0 l hl with h0 | hm2
+      · rw [h0]; simp
+      · exact all_zero_ent (List.all_eq_true.1 hpm _ hm2) j
+  · intro r l j hj
+    unfold pcol
+    rcases mem_or c.pt (r / c.pdiv) with h0 | hm
+    · rw [h0]; simp
+    · have hpm := List.all_eq_true.1 h6 _ hm
+      rcases mem_or (c.pt.getD (r / c.pdiv) []) l with h0 | hm2
+      · rw [h0]; simp
+      · exact all_drop_ent (List.all_eq_true.1 hpm _ hm2) j hj
+  · intro j hj; exact all_drop_ent h7 j hj
+
+/-- `wprodOk`: the basis weight is the product of the longitude weight and the latitude weight,
+ `|w[j] − wf·wl[j]| ≤ 2^-k` at every latitude node -/
+theorem wprodOk_sound (c : ICert) (k : Nat) (h : c.wprodOk k = true) (j : Nat) (hj : j < c.wl.length) :
+    |sc (ent c.w j) c.ew - sc c.wf c.ewf * sc (ent c.wl j) c.ewl| ≤ 1 / 2 ^ k := by
+  simp only [wprodOk, Bool.and_eq_true, decide_eq_true_eq, List.all_eq_true] at h
+  obtain ⟨hlen, h⟩ := h
+  have hjw : j < c.w.length := by omega
+  have hmem : (c.w[j], c.wl[j]) ∈ List.zip c.w c.wl := by
+    have : (List.zip c.w c.wl)[j]? = some (c.w[j], c.wl[j]) := by
+      rw [List.getElem?_zip_eq_some]; exact ⟨List.getElem?_eq_getElem hjw, List.getElem?_eq_getElem hj⟩
+    exact List.mem_of_getElem? this
+  have hk := h _ hmem
+  have ew : ent c.w j = c.w[j] := by
+    simp [ent, List.getD_eq_getElem?_getD, List.getElem?_eq_getElem hjw]
+  have ewl : ent c.wl j = c.wl[j] := by
+    simp [ent, List.getD_eq_getElem?_getD, List.getElem?_eq_getElem hj]
+  rw [ew, ewl]
+  set a := c.w[j]
+  set b := c.wl[j]
+  have hq : (((a * Int.ofNat (2 ^ (c.ewf + c.ewl)) - c.wf * b * Int.ofNat (2 ^ c.ew)).natAbs : ℕ) : ℚ) * 2 ^ k
+      ≤ 2 ^ (c.ew + c.ewf + c.ewl) := by exact_mod_cast hk
+  rw [Nat.cast_natAbs, Int.cast_abs] at hq
+  have key : ((a * Int.ofNat (2 ^ (c.ewf + c.ewl)) - c.wf * b * Int.ofNat (2 ^ c.ew) : Int) : ℚ)
+      = 2 ^ (c.ew + c.ewf + c.ewl) * (sc a c.ew - sc c.wf c.ewf * sc b c.ewl) := by
+    simp only [sc, Int.ofNat_eq_natCast, pow_add]
+    push_cast
+    field_simp
+  rw [key, abs_mul, abs_of_pos (by positivity : (0 : ℚ) < 2 ^ (c.ew + c.ewf + c.ewl))] at hq
+  rw [le_div_iff₀ (by positivity : (0 : ℚ) < 2 ^ k)]
+  have hP : (0 : ℚ) < 2 ^ (c.ew + c.ewf + c.ewl) := by positivity
+  have : 2 ^ (c.ew + c.ewf + c.ewl) * (|sc a c.ew - sc c.wf c.ewf * sc b c.ewl| * 2 ^ k)
+      ≤ (2 : ℚ) ^ (c.ew + c.ewf + c.ewl) * 1 := by linarith
+  exact le_of_mul_le_mul_left this hP
+
+/-- `nodesOk`: the latitude nodes are symmetric about the equator within `2^-k`,
+ `|x[j] + x[n−1−j]| ≤ 2^-k`, and lie in `[-1, 1]` -/
+theorem nodesOk_sound (c : ICert) (k : Nat) (h : c.nodesOk k = true) (j : Nat) (hj : j < c.x.length) :
+    |sc (ent c.x j) c.ex + sc (ent c.x (c.x.length - 1 - j)) c.ex| ≤ 1 / 2 ^ k ∧
+    |sc (ent c.x j) c.ex| ≤ 1 := by
+  simp only [nodesOk, Bool.and_eq_true, decide_eq_true_eq, List.all_eq_true] at h
+  obtain ⟨h1, h2⟩ := h
+  have hj' : c.x.length - 1 - j < c.x.length := by omega
+  have e1 : ent c.x j = c.x[j] := by
+    simp [ent, List.getD_eq_getElem?_getD, List.getElem?_eq_getElem hj]
+  have e2 : ent c.x (c.x.length - 1 - j) = c.x[c.x.length - 1 - j] := by
+    simp [ent, List.getD_eq_getElem?_getD, List.getElem?_eq_getElem hj']
+  rw [e1, e2]
+  have hP : (0 : ℚ) < 2 ^ c.ex := by positivity
+  constructor
+  · have hmem : (c.x[j], c.x[c.x.length - 1 - j]) ∈ List.zip c.x c.x.reverse := by
+      have : (List.zip c.x c.x.reverse)[j]? = some (c.x[j], c.x[c.x.length - 1 - j]) := by
+        rw [List.getElem?_zip_eq_some]
+        refine ⟨List.getElem?_eq_getElem hj, ?_⟩
+        rw [List.getElem?_reverse hj, List.getElem?_eq_getElem hj']
+      exact List.mem_of_getElem? this
+    have hk := h1 _ hmem
+    have hq : (((c.x[j] + c.x[c.x.length - 1 - j]).natAbs : ℕ) : ℚ) * 2 ^ k ≤ 2 ^ c.ex := by
+      exact_mod_cast hk
+    rw [Nat.cast_natAbs, Int.cast_abs] at hq
+    push_cast at hq
+    rw [le_div_iff₀ (by positivity : (0 : ℚ) < 2 ^ k)]
+    have : sc c.x[j] c.ex + sc c.x[c.x.length - 1 - j] c.ex
+        = ((c.x[j] : ℚ) + (c.x[c.x.length - 1 - j] : ℚ)) / 2 ^ c.ex := by
+      simp only [sc]; ring
+    rw [this, abs_div, abs_of_pos hP, div_mul_eq_mul_div, div_le_one hP]
+    exact hq
+  · have hk := h2 _ (List.getElem_mem hj)
+    have hq : (((c.x[j]).natAbs : ℕ) : ℚ) ≤ 2 ^ c.ex := by exact_mod_cast hk
+    rw [Nat.cast_natAbs, Int.cast_abs] at hq
+    simp only [sc]
+    rw [abs_div, abs_of_pos hP, div_le_one hP]
+    exact hq
+
 end ICert
 end Dino.SH
